@@ -9,118 +9,12 @@ import RenetVerif.Lemmas.SrcEquiv.Prims
 import RenetVerif.Lemmas.SrcEquiv.CommonRepr
 import RenetVerif.Lemmas.SrcEquiv.Slice
 import RenetVerif.Lemmas.SrcEquiv.ChanLemmas
+import RenetVerif.Lemmas.SrcEquiv.SliceTable
 namespace RenetVerif.SrcEquiv
 open RenetVerif RenetVerif.RustSem
 
 section RecvUnrel
 open Src.renet.channel.unreliable
-abbrev SSliceCtor := Src.renet.channel.slice_constructor.SliceConstructor
-
-/-! ### maps -/
-
-/-- model slice table ↦ generated `BTreeMap<u64, SliceConstructor>` (the constructor stores its key as `message_id`) -/
-def reprSlices (m : SMap SliceCtor) : RustSem.Map SSliceCtor := m.map fun p => (p.1, reprSC p.1 p.2)
-
-theorem find_reprSlices (m : SMap SliceCtor) (k : Nat) :
-    RustSem.Map.find? (reprSlices m) k = (SMap.find? m k).map (reprSC k) := by
-  induction m with
-  | nil => rfl
-  | cons p r ih =>
-    obtain ⟨k', v⟩ := p
-    simp only [reprSlices, List.map_cons, RustSem.Map.find?, SMap.find?] at ih ⊢
-    by_cases h : k' = k
-    · subst h; simp
-    · simp [h, ih]
-
-theorem contains_reprSlices (m : SMap SliceCtor) (k : Nat) :
-    RustSem.Map.contains_key (reprSlices m) k = SMap.contains m k := by
-  simp [RustSem.Map.contains_key, SMap.contains, find_reprSlices]
-
-theorem insert_reprSlices (m : SMap SliceCtor) (k : Nat) (c : SliceCtor) :
-    RustSem.Map.insert (reprSlices m) k (reprSC k c) = reprSlices (SMap.insert m k c) := by
-  induction m with
-  | nil => rfl
-  | cons p r ih =>
-    obtain ⟨k', v⟩ := p
-    simp only [reprSlices, List.map_cons, RustSem.Map.insert, SMap.insert] at ih ⊢
-    by_cases h1 : k < k'
-    · simp [h1]
-    · by_cases h2 : k = k'
-      · simp [h2]
-      · simp [h1, h2, ih]
-
-theorem remove_reprSlices (m : SMap SliceCtor) (k : Nat) :
-    RustSem.Map.remove (reprSlices m) k = reprSlices (SMap.erase m k) := by
-  induction m with
-  | nil => rfl
-  | cons p r ih =>
-    obtain ⟨k', v⟩ := p
-    simp only [reprSlices, List.map_cons, RustSem.Map.remove, SMap.erase] at ih ⊢
-    by_cases h : k' = k
-    · simp [h]
-    · simp [h, ih]
-
-/-- a completed message is not longer than the reserved `num_slices * SLICE_SIZE` -/
-theorem payload_len_le (c : SliceCtor) (idx : Nat) (bytes : Bytes) (c' : SliceCtor) (m : Bytes)
-    (hd : c.data.length ≤ c.numSlices * C.SLICE_SIZE) (h : c.processSlice idx bytes = .ok (c', some m)) :
-    m.length ≤ c.numSlices * C.SLICE_SIZE := by
-  have hset : ∀ (l : Bytes) (st : Nat) (src : Bytes) (site : String) (l' : Bytes),
-      (setRange l st src site : Res ChanErr Bytes) = .ok l' → l'.length = l.length := by
-    intro l st src site l' h
-    unfold setRange at h
-    split at h
-    · injection h with h; subst h
-      simp only [List.length_append, List.length_take, List.length_drop]; omega
-    · cases h
-  have hres : ∀ (l : Bytes) (n : Nat), (resize l n).length = n := by
-    intro l n; simp only [resize, List.length_append, List.length_take, List.length_replicate]; omega
-  unfold SliceCtor.processSlice at h
-  split at h
-  · cases h
-  rename_i h1
-  simp only at h
-  split at h
-  · cases h
-  rename_i h2
-  split at h
-  · cases h
-  rename_i h3
-  split at h
-  · cases h
-  rename_i got hg
-  cases got with
-  | true =>
-    simp only [if_true, Res.pure_eq, Res.bind_ok] at h
-    split at h
-    · injection h with h; injection h with _ h'; injection h' with h'; subst h'; exact hd
-    · cases h
-  | false =>
-    simp only [Bool.false_eq_true, if_false] at h
-    generalize hdat : (if (idx == c.numSlices - 1) = true then resize c.data ((c.numSlices - 1) * C.SLICE_SIZE + bytes.length) else c.data) = dat at h
-    cases hsr : (setRange dat (idx * C.SLICE_SIZE) bytes "slice_constructor.rs sliced_data[start..end].copy_from_slice" : Res ChanErr Bytes) with
-    | err e => rw [hsr] at h; cases h
-    | panic s => rw [hsr] at h; cases h
-    | ok d' =>
-      rw [hsr] at h
-      simp only [Res.bind_ok, Res.pure_eq] at h
-      have hl := hset _ _ _ _ _ hsr
-      split at h
-      · injection h with h; injection h with _ h'; injection h' with h'; subst h'
-        rw [hl, ← hdat]
-        split
-        · rename_i hlast
-          rw [hres]
-          have : bytes.length ≤ C.SLICE_SIZE := by
-            by_cases hb : bytes.length > C.SLICE_SIZE
-            · exact absurd ⟨hlast, hb⟩ h2
-            · omega
-          have hn : 1 ≤ c.numSlices := by omega
-          have : (c.numSlices - 1) * C.SLICE_SIZE + C.SLICE_SIZE = c.numSlices * C.SLICE_SIZE := by
-            rw [← Nat.succ_mul]; congr 1; omega
-          omega
-        · exact hd
-      · cases h
-
 /-! ### states -/
 
 def reprRU (r : RecvUnrel) : ReceiveChannelUnreliable :=
@@ -161,12 +55,6 @@ abbrev SRU := ReceiveChannelUnreliable
 /-- generated outcome predicted by the model outcome -/
 def ruOut : Res (ChanErr × RecvUnrel) RecvUnrel → Res (SChannelError × SRU) (SRU × Unit) :=
   mapRes (fun r' => (reprRU r', ())) (fun e => (reprCE e.1, reprRU e.2))
-
-/-- side conditions on the constructor the slice belongs to -/
-structure CtorOk (c : SliceCtor) : Prop where
-  size : c.numSlices * C.SLICE_SIZE < 2 ^ 64
-  recv : c.numReceived + 1 < 2 ^ 64
-  data : c.data.length ≤ c.numSlices * C.SLICE_SIZE
 
 set_option maxRecDepth 10000 in
 /-- the slice's message already has a constructor -/
@@ -240,9 +128,6 @@ theorem process_slice_has (r : RecvUnrel) (sl : Slice) (now : Nat) (c : SliceCto
 def reserved (r : RecvUnrel) (sl : Slice) : RecvUnrel :=
   { r with mem := r.mem + sl.numSlices * C.SLICE_SIZE,
            slices := SMap.insert r.slices sl.messageId (SliceCtor.new sl.numSlices) }
-
-theorem ctorOk_new (n : Nat) (h : n * C.SLICE_SIZE < 2 ^ 64) : CtorOk (SliceCtor.new n) :=
-  ⟨h, by simp [SliceCtor.new], by simp [SliceCtor.new]⟩
 
 set_option maxRecDepth 10000 in
 theorem process_slice_eq_ru (r : RecvUnrel) (sl : Slice) (now : Nat) (hs : MSorted r.slices)
